@@ -43,6 +43,12 @@ func runC01(c *eng.Ctx) {
 	c.Rule("R01.14", "K5")
 	ruleListIsFetchedAfterTheWait(c)
 	c.Rule("R01.8", "K5")
+	ruleTruncateAlwaysUnsealsTheActiveSegment(c)
+	c.Rule("R10.9", "K5")
+	ruleCommittedReaderCapsOnlyPastTheEnd(c)
+	c.Rule("R01.18", "K4")
+	rulePooledBuffersDoNotEscape(c)
+	c.Rule("R01.8", "K5")
 	ruleNoEntryAtOrBelowIsMinusOne(c)
 	c.Rule("R01.1", "K5")
 	ruleOffsetIdentity(c)
@@ -568,7 +574,7 @@ func ruleCRC(c *eng.Ctx) {
 	}
 	eq := eng.CmpEdges(fn, eng.Call(-1, cl+"SerializedMessage.Crc"), eng.Same(cs[0].(ssa.Value)), eng.EQ)
 	for _, r := range eng.Returns(fn) {
-		if len(r.Results) == 5 && eng.NilConst(r.Results[4]) {
+		if len(eng.RetVals(r)) == 5 && eng.NilConst(eng.RetVals(r)[4]) {
 			g, w := eng.GuardedBy(fn, r, eq)
 			c.Check(g && len(eq) > 0, "message returned only after CRC match", c.Pos(r), "success return dominated by crc == checksum(payload)", "readMessage can return a message whose CRC was not verified (path "+w.String()+")")
 		}
